@@ -340,6 +340,27 @@ theorem mont_compressed_sign_lost (P : EPt F) :
     simp only [Mont.encodeCompressed, E.neg, h0, h1, if_false]
     rfl
 
+/-- **curve25519, uncompressed `u ‖ v`**: the point of order 2, `(0, -1)`, is the Montgomery point
+`(0, 0)`, so its encoding is the all-zero string — the identity's (distinct elements, one encoding;
+decoding returns the identity) -/
+theorem mont_order2_collides (c : F) (h2 : (2 : F) ≠ 0) (h0 : io.toNat 0 = 0) :
+    (⟨0, -1⟩ : EPt F) ≠ E.zero ∧
+    Mont.encodeUncompressed io c len ⟨0, -1⟩ = Mont.encodeUncompressed io c len E.zero := by
+  have hne : (⟨0, -1⟩ : EPt F) ≠ E.zero := by
+    intro h
+    have h1 : (-1 : F) = 1 := by
+      have := congrArg EPt.y h
+      simpa [E.zero] using this
+    apply h2
+    linear_combination -h1
+  refine ⟨hne, ?_⟩
+  have hu : Mont.u? (⟨0, -1⟩ : EPt F) = some 0 := by
+    have : (1 : F) - -1 = 2 := by ring
+    simp [Mont.u?, this, h2]
+  have hv : Mont.v? c (⟨0, -1⟩ : EPt F) = some 0 := by
+    simp [Mont.v?, hne]
+  simp [Mont.encodeUncompressed, hne, hu, hv, h0]
+
 end others
 
 /-! ## value of an accepted encoding, and off-curve coordinates (SEC1, Pasta, Edwards) -/
@@ -948,6 +969,10 @@ example : Ed.encodeCompressed io7 1 ⟨1, 2⟩ = [0x82] ∧
     (⟨1, 2⟩ : EPt (ZMod 7)).y = io7.ofNat (leNat (Ed.encodeCompressed io7 1 ⟨1, 2⟩) % topBit 1) :=
   ⟨by decide, ed_decode_value io7 6 1 4 _ ⟨1, 2⟩
     (ed_decode_encode io7 6 1 io7_good (by decide) io7_top 4 (by decide) ⟨1, 2⟩ (by decide))⟩
+
+/-- over `F₇`: `(0, 6)` and the identity `(0, 1)` share the all-zero `u ‖ v` encoding -/
+example : Mont.encodeUncompressed io7 3 1 ⟨0, -1⟩ = [0, 0] ∧ Mont.encodeUncompressed io7 3 1 E.zero = [0, 0] :=
+  ⟨(mont_order2_collides io7 1 3 (by decide) (by decide)).2.trans (by decide), by decide⟩
 
 /-- a one-component BLS-style coordinate view over `F₇` (one byte per coordinate) -/
 def cio7 : CoordIO (ZMod 7) where
